@@ -1,0 +1,30 @@
+//go:build verif
+
+// Contracts for the deductive verifier in /verif (govc). This file contains no code: with the
+// build tag off it is not part of the package, with it on it adds nothing to the build.
+package types
+
+//@ import common "github.com/ethereum/go-ethereum/common"
+
+// keys.go — store keys. The abstract key of the allowance table entry (owner, spender): the prefix byte 4, then the 20
+// bytes of the owner, then the 20 bytes of the spender (injective in the pair: see lemma cpc_allow_key_injective below).
+//@ ghost func allowKeyB(o common.Address, s common.Address) bytes = bcat(bcat(bcat(bempty(), b1(4)), addrBytes(o)), addrBytes(s))
+// The allowance table as a view of the module store (has / val = the store's domain and values): absent == 0.
+//@ ghost func cpcAllow(has map[bytes]bool, val map[bytes]bytes, o common.Address, s common.Address) int = (has[allowKeyB(o, s)] && blen(val[allowKeyB(o, s)]) != 0) ? beVal(val[allowKeyB(o, s)]) : 0
+//@ ghost func metaKeyB(a common.Address) bytes = bcat(b1(2), addrBytes(a))
+
+// Package-level key prefixes hold the values their initialisers give them (T4: package-level variables are not
+// modified after init; the initialisers are the literals in keys.go).
+//@ import big "math/big"
+//@ axiom cpc_max_uint256: BigMaxUint256 != nil && bigval[BigMaxUint256] == pow2(256) - 1
+//@ axiom cpc_key_prefixes: len(KeyPrefixParams) == 1 && KeyPrefixParams[0] == 1 && len(KeyPrefixCustomPrecompiledContractMeta) == 1 && KeyPrefixCustomPrecompiledContractMeta[0] == 2 && len(KeyPrefixErc20CpcDenomToAddress) == 1 && KeyPrefixErc20CpcDenomToAddress[0] == 3 && len(KeyPrefixErc20CpcAllowance) == 1 && KeyPrefixErc20CpcAllowance[0] == 4
+
+//@ func Erc20CustomPrecompiledContractAllowanceKey(owner, spender common.Address) []byte
+//@   modifies nothing
+//@   ensures[C10.allow_key_layout] bytes(result) == allowKeyB(owner, spender) && len(result) == 41 && fresh(base(result))
+//@   panics never
+
+//@ func CustomPrecompiledContractMetaKey(contractAddr common.Address) []byte
+//@   modifies nothing
+//@   ensures[C17.meta_key_layout] bytes(result) == metaKeyB(contractAddr) && len(result) == 21
+//@   panics never
